@@ -180,7 +180,7 @@ def compatible(m, d1, d2):
             b = m.parents[b]
         a = m.parents[a]
     return True
-def extra_jobs(m, tier='quick'):
+def extra_jobs(m, tier='quick', q3=True):
     base = dict(tu=m.tu, defs=m.defs, unwind=m.unwind, objbits=12, timeout=900)
     ncfg = m.count(0)
     for c in range(ncfg):
@@ -197,14 +197,14 @@ def extra_jobs(m, tier='quick'):
                         job(id='C.%s.sub.c%d.d%d.g%d%s.s%d' % (m.name, c, d, g, 'e' if is_entry else 'x', sd), entry='step_substitute', key=[c, d, g, is_entry, sd], props=['C04', 'C01', 'C02', 'C03'], quick_for=['C04'],
                             tier=tier if quick else 'thorough', carriers=[r'R_<.*>::processTransitions', r'R_<.*>::approvedByGuards', r'RegistryT<.*>::restore'],
                             case_key='%s/substitute/cfg=%d/dest=%d/guard=%d(%s)/instead=%d' % (m.name, c, d, g, 'entry' if is_entry else 'exit', sd), **base)
-    for d1 in range(1, m.n):
+    for d1 in range(1, m.n if q3 else 1):
         for d2 in range(1, m.n):
             for d3 in range(1, m.n):
                 interesting = len({d1, d2, d3}) == 3 and not compatible(m, d2, d3) and compatible(m, d1, d3)
                 job(id='C.%s.q3.d%d.d%d.d%d' % (m.name, d1, d2, d3), entry='step_queued3', key=[d1, d2, d3], props=['C02', 'C01', 'C04'], quick_for=['C02'], tier=tier if interesting else 'thorough',
                     carriers=[r'RegistryT<.*>::requestImmediate'], case_key='%s/queued triple/change %d, %d, %d' % (m.name, d1, d2, d3), **base)
 machine_jobs(M_RES, q2_tier='quick')
-extra_jobs(M_RES); extra_jobs(M_NEST)
+extra_jobs(M_RES, q3=False); extra_jobs(M_NEST)        # M_RES has a queue capacity of 2 (COMPO_COUNT): three queued requests are outside C02's quantifier
 machine_jobs(M_NEST, q2_tier='quick')
 machine_jobs(M_ORTHO, upd_kinds_quick=(0,))
 machine_jobs(M_SEL, kinds=(0, 1, 2, 3), upd_kinds_quick=(0, 3), upd_kinds=(0, 1, 2, 3, 6))
@@ -245,3 +245,55 @@ for tcap, payload, tier in ((1, False, 'quick'), (2, False, 'quick'), (3, False,
         job(id='B.plans.t%d%s.%s' % (tcap, '.int' if payload else '', entry[6:]), tu='tier_b/plans.cpp', defs=defs, entry=entry, props=['C07', 'C11'] + (['C14'] if payload and entry == 'proof_append' else []),
             tier=tier, unwind=max(tcap, 3) + 4, unwindset={'verif_havoc.0': 4096}, objbits=11, timeout=900,
             carriers=PLAN_CARRIERS + ([r'PayloadPlanT<.*>::append'] if payload else []), case_key='PlanDataT: 3 regions, task capacity %d, payload %s' % (tcap, 'int' if payload else 'void'))
+
+# ------------------------------------------------------------------ C12: utility / random machine
+M_UTIL = Machine('util', 'tier_c/m_util.cpp', [-1, 0, 0, 2, 2, 2, 0, 6, 6, 6], ['C', 'L', 'C', 'L', 'L', 'L', 'C', 'L', 'L', 'L'], unwind=22)
+for e, k, region in (('step_utilize', 4, 2), ('step_utilize', 0, 2), ('step_randomize', 5, 6), ('step_randomize', 0, 6)):
+    job(id='C.util.%s.%s' % (e[5:], KIND_NAMES[k]), tu=M_UTIL.tu, entry=e, key=[k, region], props=['C12', 'C01', 'C02', 'C11'], unwind=22, objbits=12, timeout=900,
+        carriers=[r'C_<.*>::deepRequestUtilize', r'C_<.*>::deepRequestRandomize', r'C_<.*>::resolveRandom', r'CS_<.*>::wideReportUtilize', r'CS_<.*>::wideReportRank', r'CS_<.*>::wideReportRandomize', r'C_<.*>::deepRequestChangeUtilitarian', r'C_<.*>::deepRequestChangeRandom'],
+        case_key='util/%s/%s region %d' % (e[5:], KIND_NAMES[k], region))
+
+# ------------------------------------------------------------------ C06: plans on the plan machine
+M_PLAN = Machine('plan', 'tier_c/m_plan.cpp', [-1, 0, 0, 2, 2, 2], ['C', 'L', 'C', 'L', 'L', 'L'], unwind=14)
+for c in range(M_PLAN.count(0)):
+    act = M_PLAN.active_set(c)
+    for shape in range(0, 9):
+        for actor in act:
+            if actor == 0: continue
+            for action in (1, 2):
+                quick = actor == max(act) and shape in (0, 1, 2, 3, 5, 8)
+                job(id='C.plan.c%d.shape%d.a%d.%s' % (c, shape, actor, 'succeed' if action == 1 else 'fail'), tu=M_PLAN.tu, entry='step_plan', key=[c, shape, actor, action], props=['C06', 'C01', 'C03', 'C11'],
+                    tier='quick' if quick else 'thorough', unwind=14, objbits=12, timeout=900,
+                    carriers=[r'FullControlT<.*>::updatePlan', r'C_<.*>::deepUpdatePlans', r'FullControlBaseT<.*>::succeed', r'FullControlBaseT<.*>::fail', r'PlanDataT<.*>::clearStatuses'],
+                    case_key='plan/cfg=%d/shape=%d/actor=%d/%s' % (c, shape, actor, 'succeed' if action == 1 else 'fail'))
+machine_jobs(M_PLAN, upd_kinds_quick=(0,))
+
+# ------------------------------------------------------------------ C14: payloads (resumable machine with PayloadT<int32_t>)
+M_PAY = Machine('payload', 'tier_c/m_resumable.cpp', [-1, 0, 0, 2, 2, 0], ['C', 'L', 'C', 'L', 'L', 'L'], defs={'VM_PAYLOAD': None})
+for d1 in range(1, M_PAY.n):
+    for has1 in (1, 0):
+        job(id='C.payload.single.d%d.%s' % (d1, 'with' if has1 else 'without'), tu=M_PAY.tu, defs=M_PAY.defs, entry='step_payload', key=[d1, has1, 0, 0], props=['C14', 'C01', 'C11'], unwind=12, objbits=12, timeout=900,
+            carriers=[r'TransitionT<int>::TransitionT', r'TransitionT<int>::payload', r'RP_<.*>::changeWith', r'DynamicArrayT<hfsm2::detail::TransitionT<int>.*>::operator\+='], case_key='payload/single/dest=%d/%s' % (d1, 'payload' if has1 else 'none'))
+    for d2 in range(1, M_PAY.n):
+        for has1, has2 in ((1, 1), (1, 0), (0, 1)):
+            job(id='C.payload.pair.d%d.d%d.%d%d' % (d1, d2, has1, has2), tu=M_PAY.tu, defs=M_PAY.defs, entry='step_payload', key=[d1, has1, d2, has2], props=['C14', 'C01', 'C11'], unwind=12, objbits=12, timeout=900,
+                tier='quick' if (has1, has2) == (1, 1) else 'thorough', carriers=[r'TransitionT<int>::TransitionT'], case_key='payload/pair/%d,%d/%d%d' % (d1, d2, has1, has2))
+machine_jobs(M_PAY, kinds=(0,), upd_kinds_quick=(), tier='thorough')
+
+# ------------------------------------------------------------------ C16: logger / structure report (resumable machine, verbose and interface logging)
+for mode, name in ((1, 'verbose'), (2, 'interface')):
+    M_LOG = Machine('log_' + name, 'tier_c/m_resumable.cpp', [-1, 0, 0, 2, 2, 0], ['C', 'L', 'C', 'L', 'L', 'L'], defs={'VM_LOGGER': mode})
+    base = dict(tu=M_LOG.tu, defs=M_LOG.defs, unwind=12, objbits=12, timeout=900)
+    for d in range(1, M_LOG.n):
+        for k in (0, 2):
+            tier = 'quick' if (mode == 1 or k == 0) else 'thorough'
+            job(id='C.%s.logger.%s.d%d' % (M_LOG.name, KIND_NAMES[k], d), entry='step_logger', key=[k, d], props=['C16', 'C01', 'C11'], tier=tier,
+                carriers=[r'S_<.*>::deepEnter', r'FullControlBaseT<.*>::changeTo', r'GuardControlT<.*>::cancelPendingTransitions'], case_key='%s/logger mirrors callbacks/%s/dest=%d' % (name, KIND_NAMES[k], d), **base)
+        job(id='C.%s.neutral.d%d' % (M_LOG.name, d), entry='step_logger_neutral', key=[0, d], props=['C16'], tier='quick' if mode == 1 else 'thorough', carriers=[], case_key='%s/logger neutrality/dest=%d' % (name, d), **base)
+        if mode == 1:
+            job(id='C.%s.structure.d%d' % (M_LOG.name, d), entry='step_structure', key=[0, d], props=['C16', 'C11'], carriers=[r'R_<.*>::udpateActivity'], case_key='structure report/dest=%d' % d, **base)
+    for c in range(M_LOG.count(0)):
+        i = max(M_LOG.active_set(c))
+        for d in range(1, M_LOG.n):
+            job(id='C.%s.logupd.c%d.d%d' % (M_LOG.name, c, d), entry='step_logger_update', key=[c, i, 0, d], props=['C16'], tier='quick' if (mode == 1 and d in (1, 4)) else 'thorough',
+                carriers=[r'R_<.*>::update'], case_key='%s/logger during update/cfg=%d/dest=%d' % (name, c, d), **base)
